@@ -331,6 +331,7 @@ class Daemon(object):
         try:
             msg = protocol.recv_stub(conn, [protocol.MSG_CONNECT])
             msg_seq = msg.seq
+            current_context.response_annotations = {}   # nothing left over from an earlier request served by this thread
             if denied_reason:
                 raise Exception(denied_reason)
             if config.LOGWIRE:
@@ -398,6 +399,7 @@ class Daemon(object):
             # log.info("error receiving data from client %s: %s", conn.sock.getpeername(), x)
             raise x
         try:
+            current_context.response_annotations = {}   # nothing left over from an earlier request served by this thread
             request_flags = msg.flags
             request_seq = msg.seq
             request_serializer_id = msg.serializer_id
